@@ -160,7 +160,7 @@ def gen_scenario(ctx, k):
     cfg = cfggen.gen_config(rng, nboards=rng.randrange(1, 5) if k % 2 == 0 else rng.randrange(3, 7), with_initial=(k % 2 == 0))
     # make sure the interesting equipment exists
     if not cfg['trains']:
-        cfg['trains'].append({'id': 'xtrain', 'addr': (0x3E, 0xEE), 'steps': rng.choice(cfggen.SPEED_STEPS), 'calibration': sorted(rng.randrange(127) for _ in range(9)),
+        cfg['trains'].append({'id': 'xtrain', 'addr': cfggen.free_dcc(cfg, (0x3E, 0xEE)), 'steps': rng.choice(cfggen.SPEED_STEPS), 'calibration': sorted(rng.randrange(127) for _ in range(9)),
                               'peripherals': [{'id': f'xfn{b}', 'bit': b, 'initial': None} for b in rng.sample([b for b in range(32) if b not in (5, 6, 7)], 6)]})
     with_notices = (k % 2 == 1)
     if with_notices:
